@@ -171,7 +171,8 @@ def check_ratlog(chk, mod, lib, name):
                 opt.add(pcx)
                 opt.maximize(x)
                 if opt.check() == z3.sat:
-                    xq2 = model_real(opt.model(), x)
+                    from symx.smt import Model
+                    xq2 = model_real(Model(z3model=opt.model()), x)
                     if confirm(chk, lib, name, sym, xq2, 'window-too-wide'):
                         continue
                 chk.record(tag + ':window-extent', 'inconclusive', 'expansion used at x=%s' % float(xq))
